@@ -47,6 +47,16 @@ def scenarios():
                    "op": "flush_object", "atomic": True})
         sc.append({"name": f"{cls}-forced-flush", "cls": cls, "wc": False, "thr": True, "files": 2,
                    "op": "forced_flush", "atomic": True})
+    # the very first save of a file that does not exist yet: "previous content" = no file at all
+    for cls in ("JSONDict", "BufferedJSONDict", "MemoryBufferedJSONDict"):
+        for (wc, thr) in ((False, True), (True, False)):
+            sc.append({"name": f"{cls}-first-save-wc{int(wc)}-thr{int(thr)}", "cls": cls, "wc": wc, "thr": thr, "files": 1,
+                       "op": "setitem", "atomic": True, "missing": True})
+    sc.append({"name": "JSONList-first-append", "cls": "JSONList", "wc": False, "thr": True, "files": 1, "op": "append",
+               "atomic": True, "missing": True})
+    for cls in ("BufferedJSONDict", "MemoryBufferedJSONDict"):
+        sc.append({"name": f"{cls}-backend-flush-3-new-files", "cls": cls, "wc": False, "thr": True, "files": 3,
+                   "op": "flush_backend", "atomic": True, "missing": True})
     # in-place mode: only the serialisation-failure clause applies
     sc.append({"name": "JSONDict-inplace", "cls": "JSONDict", "wc": False, "thr": False, "files": 1, "op": "setitem",
                "atomic": False})
@@ -75,7 +85,8 @@ def run_op(sc, d, unserializable=False):
         with cls.buffer_backend():
             for i, o in enumerate(objs):
                 o["k"] = f"new-{i}-" + "w" * 20
-                o["n"]["a"].append(i)
+                if not sc.get("missing"):
+                    o["n"]["a"].append(i)
     elif op == "flush_object":
         with objs[0].buffered:
             objs[0]["k"] = "new-" + "q" * 30
@@ -244,6 +255,8 @@ def fork_run(sc, d, crash_at=None, line_mode=False, unserializable=False, log_pa
 def prepare(sc, base):
     d = tempfile.mkdtemp(prefix="c08-", dir=base)
     for i in range(sc["files"]):
+        if sc.get("missing"):
+            continue
         with open(os.path.join(d, f"f{i}.json"), "wb") as f:
             f.write(json.dumps(initial_content(sc)).encode())
     return d
@@ -426,7 +439,8 @@ def check_C08(tier):
                        "lengths of the bytes handed to write(), close, os.replace; before and after) and, in the line "
                        "mode, every executed line of library code, of every scenario (plain / write_concern / "
                        "threading-on saves, nested-child writes, reset, list append, backend-wide flush of 3 files, "
-                       "per-object context exit, capacity-forced flush, both buffering strategies); a case is the "
+                       "per-object context exit, capacity-forced flush, both buffering strategies; first saves of files that do "
+                       "not exist yet, where the previous content is the absence of the file); a case is the "
                        "pair (scenario, crash event); the process is killed with os._exit at that event and every "
                        "file must hold exactly its old or its new bytes and reopen normally; distinct = distinct "
                        "(scenario, event) pairs")
